@@ -1,7 +1,60 @@
 //! An in-memory session store for `pavex_session`, geared towards testing and local development.
 use pavex::{methods, time::Timestamp};
 use std::{borrow::Cow, collections::HashMap, num::NonZeroUsize, sync::Arc, time::Duration};
+#[cfg(not(feature = "verif_hooks"))]
 use tokio::sync::{Mutex, MutexGuard};
+#[cfg(feature = "verif_hooks")]
+use verif::{Mutex, MutexGuard};
+
+#[cfg(feature = "verif_hooks")]
+/// Verification hook (H3): a thin wrapper around `tokio::sync::Mutex` that, when enabled by the
+/// harness, yields to the executor once before every lock acquisition, thus turning each
+/// acquisition into a scheduling point that a harness-owned executor can enumerate.
+pub mod verif {
+    use std::sync::atomic::{AtomicBool, AtomicUsize, Ordering};
+
+    /// When `true`, every `lock()` call yields once to the executor before acquiring.
+    pub static YIELD_BEFORE_LOCK: AtomicBool = AtomicBool::new(false);
+    /// Number of `lock()` calls observed (lets the harness check that the hook is live).
+    pub static LOCK_CALLS: AtomicUsize = AtomicUsize::new(0);
+
+    pub type MutexGuard<'a, T> = tokio::sync::MutexGuard<'a, T>;
+
+    #[derive(Debug)]
+    pub struct Mutex<T>(tokio::sync::Mutex<T>);
+
+    impl<T> Mutex<T> {
+        pub fn new(t: T) -> Self {
+            Self(tokio::sync::Mutex::new(t))
+        }
+
+        pub async fn lock(&self) -> MutexGuard<'_, T> {
+            LOCK_CALLS.fetch_add(1, Ordering::SeqCst);
+            if YIELD_BEFORE_LOCK.load(Ordering::SeqCst) {
+                YieldOnce(false).await;
+            }
+            self.0.lock().await
+        }
+    }
+
+    struct YieldOnce(bool);
+
+    impl Future for YieldOnce {
+        type Output = ();
+        fn poll(
+            mut self: std::pin::Pin<&mut Self>,
+            cx: &mut std::task::Context<'_>,
+        ) -> std::task::Poll<()> {
+            if self.0 {
+                std::task::Poll::Ready(())
+            } else {
+                self.0 = true;
+                cx.waker().wake_by_ref();
+                std::task::Poll::Pending
+            }
+        }
+    }
+}
 
 use pavex_session::{
     SessionId, SessionStore,
